@@ -87,6 +87,8 @@ type simCluster struct {
 	dialHold chan struct{}
 	zkHold   chan struct{} // LocateResource waits for it to be closed
 	slowNew  time.Duration // the connection factory takes this long
+	scanRows  bool                     // user-table scans return one row per request and keep the region scanner open
+	probeHold map[string]chan struct{} // region probes to this address are answered (ok) only when released
 }
 
 func newSimCluster() *simCluster {
@@ -268,6 +270,22 @@ func (s *simConn) serve(call hrpc.Call) {
 			return
 		}
 		sv.kind = "scan"
+		if c.scanRows {
+			// a region scanner that always has one more row: scanner id 42 stays open at the server
+			yes := true
+			id := uint64(42)
+			finish("ok")
+			if r.IsClosing() {
+				deliver(&pb.ScanResponse{MoreResults: &yes, MoreResultsInRegion: &yes}, nil)
+				return
+			}
+			ts := uint64(1)
+			row := &pb.Result{Cell: []*pb.Cell{{Row: []byte("row"), Family: []byte("f"), Qualifier: []byte("q"),
+				Value: []byte("v"), Timestamp: &ts, CellType: pb.CellType_PUT.Enum()}}}
+			deliver(&pb.ScanResponse{ScannerId: &id, MoreResults: &yes, MoreResultsInRegion: &yes,
+				Results: []*pb.Result{row}}, nil)
+			return
+		}
 		no := false
 		finish("ok")
 		deliver(&pb.ScanResponse{MoreResults: &no, MoreResultsInRegion: &no}, nil)
@@ -294,6 +312,16 @@ func (s *simConn) serve(call hrpc.Call) {
 			finish("nsre")
 			deliver(nil, excErr("nsre"))
 		}
+		return
+	}
+	if h := c.probeHold[s.addr]; h != nil && sv.kind == "probe" {
+		// the answer (ok) is on its way and arrives when released, whatever happens to the connection meanwhile
+		finish("ok-late")
+		go func() {
+			<-h
+			t := true
+			deliver(&pb.GetResponse{Result: &pb.Result{Exists: &t}}, nil)
+		}()
 		return
 	}
 	var reg *simRegion
